@@ -165,6 +165,24 @@ def h_convert(ctx):
             ctx.check(ctx.eq(d.magnitude[0][k], want, tol=1e-9), "link-conversion", {"sig": sig})
 
 
+    # --- across a STATIC link, pulled repeatedly (the input serves later pulls from its own cache)
+    if comp:
+        sout = fm.Output(name="sout", info=fm.Info(time=None, grid=fm.NoGrid(1), units=u1), static=True)
+        sinp = fm.Input(name="sin", info=fm.Info(time=None, grid=fm.NoGrid(1), units=u2), static=True)
+        sout >> sinp
+        sinp.ping()
+        sinp.exchange_info()
+        sout.push_data(np.array(vals, dtype=object), None)
+        a, b = affine(u1, u2)
+        for n_ in range(3):
+            d = sinp.pull_data(hlib.T0 + hlib.DAY * n_)
+            ctx.check(d.units == fm.UNITS.Unit(u2), "static-link-units", {"sig": sig, "pull": n_})
+            for k in range(2):
+                want = vals[k] if equiv else a * vals[k] + b
+                ctx.check(ctx.eq(d.magnitude[0][k], want, tol=1e-9), "static-link-conversion",
+                          {"sig": sig, "pull": n_})
+
+
 def _all_pairs(cat):
     return [(a, b) for a in cat for b in cat]
 
@@ -179,7 +197,8 @@ EXPLANATION = (
     "answer and keeps the invariant; so answers are independent of query history. (convert) FOR ALL VALUES: with symbolic "
     "real magnitudes in object arrays the real to_units(check_equivalent), prepare and the Output->Input link relabel "
     "without changing the terms iff the units are equivalent, produce a·v+b with pint's own (a,b) otherwise (z3 refutes "
-    "inequality), and refuse (DimensionalityError / FinamDataError / FinamMetaDataError) iff the dimensions differ."
+    "inequality), and refuse (DimensionalityError / FinamDataError / FinamMetaDataError) iff the dimensions differ; a static "
+    "link is pulled three times (later pulls come from the input's cache) and must deliver the converted data every time."
 )
 ASSUMPTIONS = ["pint is the oracle for (compatible, factor, offset) of each catalogue pair",
                "catalogue of 34 unit strings (vf/props/c17.py CATALOGUE)"]
